@@ -38,6 +38,19 @@ pub fn run(ctx: &Ctx) -> Report {
             });
         }
     }
+    for pop in ["all", "decoys-on", "decoys-off"] {
+        let lists = g(&format!("order.{pop}.lists>=3real-not-in-member-order"));
+        let byname = g(&format!("order.{pop}.in-name-order"));
+        if lists >= 200 && byname == lists {
+            local.violate(Violation {
+                subcheck: "order-leak-name-order".into(),
+                class: pop.into(),
+                observed: "every _sd list shows its real digests in the alphabetical order of the hidden members' names".into(),
+                case: 0,
+                detail: json!({"lists": lists, "in_name_order": byname}),
+            });
+        }
+    }
     for pop in ["decoys-on", "decoys-on.in-payload", "decoys-on.in-disclosed-value"] {
         let wd = g(&format!("order.{pop}.lists-with-decoy"));
         let dl = g(&format!("order.{pop}.all-decoys-last"));
@@ -162,6 +175,18 @@ fn one_case(ctx: &Ctx, case: u64, l: &mut Local) {
                 l.count(&format!("order.{pop}.lists>=2real"));
                 if in_order {
                     l.count(&format!("order.{pop}.in-member-order"));
+                }
+            }
+            // the same for the order of the hidden members' NAMES (lists whose member order is not
+            // already the name order, with at least three real digests: chance 1/6 or less each)
+            let ranks: Vec<usize> = list.name_ranks.iter().filter_map(|e| *e).collect();
+            if ranks.len() >= 3 && !in_order {
+                let by_name = ranks.windows(2).all(|w| w[0] < w[1]);
+                for pop in ["all".to_string(), tagk.to_string()] {
+                    l.count(&format!("order.{pop}.lists>=3real-not-in-member-order"));
+                    if by_name {
+                        l.count(&format!("order.{pop}.in-name-order"));
+                    }
                 }
             }
             if decoys {
